@@ -229,6 +229,14 @@ def group_specs(m: dict, reduced: bool = False) -> list[GroupSpec]:
                           (InvSpec(0.0, 1000.0),))
             if consistent([g]):
                 out.append(g)
+        # one battery behind two inverters with non-zero exclusion bounds: (a) the battery's inclusion bound leaves a
+        # left-over for the second inverter that is smaller than its exclusion bound; (b) a first inverter with a narrow
+        # allowed band (inclusion < own exclusion + the next one's)
+        for soc in (40.0, 60.0):
+            for g in (GroupSpec((BatSpec(soc, 1000.0, 200.0, 1050.0),), (InvSpec(100.0, 1000.0), InvSpec(100.0, 1000.0))),
+                      GroupSpec((BatSpec(soc, 1000.0, 0.0, 1000.0),), (InvSpec(100.0, 150.0), InvSpec(100.0, 1000.0)))):
+                if consistent([g]):
+                    out.append(g)
     return out
 
 
